@@ -4,6 +4,8 @@ CONSTANTS
   RollAt = 2
   NDel = 2
   NCons = 1
+  NGet = 1
+  MaxDel = 2
   FixStale = TRUE
 VIEW view
 INVARIANTS QuiescentOK HeadFlagOK
